@@ -628,4 +628,108 @@ theorem takeFromSource_binv {c : Cx} {R : Acct → Asset → Int} {fb : Option A
     have := hsplit x A; rw [flOf_eta] at this
     rw [flOf_pair hasm]; omega
 
+/-! ### destinations -/
+
+/-- what a destination does to the invariant: the funding `f` it receives leaves the flight, what it hands back
+(`r`) enters it — whatever else is in flight (`fl` counts everything, `f` included) -/
+def DestInv (c : Cx) (bal0 : Acct → Asset → Int) (f r : Fund) (st st' : St) : Prop :=
+  ∀ fl : Acct → Asset → Int, DInv c bal0 st fl → (∀ x A, flOf f x A ≤ fl x A) →
+    DInv c bal0 st' (fun x A => fl x A - flOf f x A + flOf r x A)
+
+theorem DestInv.refl (c : Cx) (bal0 : Acct → Asset → Int) (f : Fund) (st : St) : DestInv c bal0 f f st st :=
+  fun _ hi _ => hi.congr (fun x A => by omega)
+
+theorem DestInv.trans {c : Cx} {bal0 : Acct → Asset → Int} {f m r : Fund} {st st1 st2 : St}
+    (h1 : DestInv c bal0 f m st st1) (h2 : DestInv c bal0 m r st1 st2) : DestInv c bal0 f r st st2 := by
+  intro fl hi hle
+  have a1 := h1 fl hi hle
+  have a2 := h2 _ a1 (fun x A => by have := hle x A; omega)
+  exact a2.congr (fun x A => by omega)
+
+/-- a piece `f1` of `f` goes through a sub-destination which hands back `k`; `k` is put back in front of the
+remainder `rem` -/
+theorem DestInv.pair {c : Cx} {bal0 : Acct → Asset → Int} {f f1 k m : Fund} {a : Asset} {rem : Parts} {st st1 : St}
+    (h1 : DestInv c bal0 f1 k st st1) (hasm : assemble [k, ⟨a, rem⟩] = .ok m)
+    (hsplit : ∀ x A, flOf f x A = flOf f1 x A + flOf ⟨a, rem⟩ x A) (hrem : ∀ x A, 0 ≤ flOf ⟨a, rem⟩ x A) :
+    DestInv c bal0 f m st st1 := by
+  intro fl hi hle
+  have a1 := h1 fl hi (fun x A => by have := hle x A; have := hsplit x A; have := hrem x A; omega)
+  exact a1.congr (fun x A => by rw [flOf_pair hasm, hsplit]; omega)
+
+mutual
+/-- **destinations** preserve the invariant; every posting they emit respects the floor (it is part of `DInv`) -/
+theorem evalDest_dinv (c : Cx) (bal0 : Acct → Asset → Int) (env : VEnv) : (d : Dest) → (f r : Fund) → (st st' : St) →
+    evalDest env d f st = .ok (r, st') → Good c f → DestInv c bal0 f r st st' ∧ Good c r ∧ r.asset = f.asset
+  | .acct e, f, r, st, st', h, hg => by
+    obtain ⟨taken, rest, a, ht, _, rfl, rfl⟩ := evalDest_acct_inv h
+    have hgs := hg.eta.take ht
+    have hsplit := fun x A => flOf_take (a := f.asset) ht x A
+    refine ⟨?_, hgs.2, rfl⟩
+    intro fl hi hle
+    have hr := fun x A => flOf_nonneg (f := ⟨f.asset, rest⟩) hgs.2.1 x A
+    have := emit_dinv (d := a) taken st fl hi hgs.1 (fun x A => by
+      have := hle x A; have := hsplit x A; have := hr x A; rw [flOf_eta] at *; omega)
+    exact this.congr (fun x A => by have := hsplit x A; rw [flOf_eta] at this; omega)
+  | .inorder caps rest, f, r, st, st', h, hg => by
+    obtain ⟨kt, cur, st1, tk, rest2, r0, hc, ht, hk, hasm⟩ := evalDest_inorder_inv h
+    obtain ⟨h1, hgcur, hca⟩ := evalCaps_dinv c bal0 env caps 0 kt f cur st st1 hc hg
+    have hgcur' : Good c ⟨f.asset, cur.parts⟩ := by have := hgcur.eta; rw [hca] at this; exact this
+    have hgs := hgcur'.reverse.take ht
+    obtain ⟨hk1, hgr0, hr0a⟩ := evalKD_dinv c bal0 env rest ⟨f.asset, rest2.reverse⟩ r0 st1 st' hk hgs.2.reverse
+    have hsplit : ∀ x A, flOf cur x A = flOf ⟨f.asset, rest2.reverse⟩ x A + flOf ⟨f.asset, tk.reverse⟩ x A := by
+      intro x A
+      have e1 := flOf_take (a := f.asset) ht x A
+      rw [flOf_reverse] at e1
+      rw [flOf_reverse, flOf_reverse, ← flOf_eta cur, hca]; omega
+    have h4 : DestInv c bal0 cur r st1 st' :=
+      DestInv.pair hk1 hasm hsplit (fun x A => flOf_nonneg (f := ⟨f.asset, tk.reverse⟩) hgs.1.reverse.1 x A)
+    exact ⟨h1.trans h4, Good.pair hasm hgr0 hgs.1.reverse, (assemble_pair hasm).1⟩
+  | .allot items, f, r, st, st', h, hg => by
+    obtain ⟨ps, _, ha⟩ := evalDest_allot_inv h
+    exact evalAllot_dinv c bal0 env items _ f r st st' ha hg
+theorem evalKD_dinv (c : Cx) (bal0 : Acct → Asset → Int) (env : VEnv) : (kd : KeptOrDest) → (f r : Fund) →
+    (st st' : St) → evalKD env kd f st = .ok (r, st') → Good c f →
+    DestInv c bal0 f r st st' ∧ Good c r ∧ r.asset = f.asset
+  | .kept, f, r, st, st', h, hg => by
+    rw [evalKD_kept] at h
+    simp only [Except.ok.injEq, Prod.mk.injEq] at h
+    obtain ⟨rfl, rfl⟩ := h
+    exact ⟨DestInv.refl c bal0 _ _, hg, rfl⟩
+  | .to d, f, r, st, st', h, hg => by
+    rw [evalKD_to] at h
+    exact evalDest_dinv c bal0 env d f r st st' h hg
+theorem evalCaps_dinv (c : Cx) (bal0 : Acct → Asset → Int) (env : VEnv) : (cs : CapList) → (kt kt' : Int) →
+    (cur cur' : Fund) → (st st' : St) → evalCaps env cs kt cur st = .ok (kt', cur', st') → Good c cur →
+    DestInv c bal0 cur cur' st st' ∧ Good c cur' ∧ cur'.asset = cur.asset
+  | .nil, kt, kt', cur, cur', st, st', h, hg => by
+    obtain ⟨_, rfl, rfl⟩ := evalCaps_nil_inv h
+    exact ⟨DestInv.refl c bal0 _ _, hg, rfl⟩
+  | .cons cap kd rest, kt, kt', cur, cur', st, st', h, hg => by
+    obtain ⟨ma, mn, k, st1, m, _, hmn, _, hk, _, hasm, hr⟩ := evalCaps_cons_inv h
+    have hgs := Good.takeMax hg.eta mn
+    obtain ⟨hk1, hgk, _⟩ := evalKD_dinv c bal0 env kd ⟨cur.asset, (takeMax cur.parts mn).1⟩ k st st1 hk hgs.1
+    have h1 : DestInv c bal0 cur m st st1 :=
+      DestInv.pair hk1 hasm (fun x A => by have := flOf_takeMax cur.asset cur.parts mn x A; rw [flOf_eta] at this; omega)
+        (fun x A => flOf_nonneg (f := ⟨cur.asset, (takeMax cur.parts mn).2⟩) hgs.2.1 x A)
+    have hgm : Good c m := Good.pair hasm hgk hgs.2
+    obtain ⟨h2, hgc', hc'a⟩ := evalCaps_dinv c bal0 env rest _ kt' m cur' st1 st' hr hgm
+    exact ⟨h1.trans h2, hgc', by rw [hc'a, (assemble_pair hasm).1]⟩
+theorem evalAllot_dinv (c : Cx) (bal0 : Acct → Asset → Int) (env : VEnv) : (items : AllotList) → (parts : List Int) →
+    (cur r : Fund) → (st st' : St) → evalAllot env items parts cur st = .ok (r, st') → Good c cur →
+    DestInv c bal0 cur r st st' ∧ Good c r ∧ r.asset = cur.asset
+  | .nil, parts, cur, r, st, st', h, hg => by
+    obtain ⟨rfl, rfl⟩ := evalAllot_nil_inv h
+    exact ⟨DestInv.refl c bal0 _ _, hg, rfl⟩
+  | .cons ps0 kd rest, parts, cur, r, st, st', h, hg => by
+    obtain ⟨p, ps, taken, rem, k, st1, m, _, ht, hk, hasm, hr⟩ := evalAllot_cons_inv h
+    have hgs := hg.eta.take ht
+    obtain ⟨hk1, hgk, _⟩ := evalKD_dinv c bal0 env kd ⟨cur.asset, taken⟩ k st st1 hk hgs.1
+    have h1 : DestInv c bal0 cur m st st1 :=
+      DestInv.pair hk1 hasm (fun x A => by have := flOf_take (a := cur.asset) ht x A; rw [flOf_eta] at this; omega)
+        (fun x A => flOf_nonneg (f := ⟨cur.asset, rem⟩) hgs.2.1 x A)
+    have hgm : Good c m := Good.pair hasm hgk hgs.2
+    obtain ⟨h2, hgr, hra⟩ := evalAllot_dinv c bal0 env rest ps m r st1 st' hr hgm
+    exact ⟨h1.trans h2, hgr, by rw [hra, (assemble_pair hasm).1]⟩
+end
+
 end Num
